@@ -15,7 +15,7 @@ def main():
     d = os.path.join(ROOT, name)
     os.makedirs(d, exist_ok=True)
     for f in ("patch.diff", "demo.py", "notes.md"):
-        if os.path.exists(os.path.join(src, f)):
+        if os.path.exists(os.path.join(src, f)) and os.path.realpath(os.path.join(src, f)) != os.path.realpath(os.path.join(d, f)):
             shutil.copy(os.path.join(src, f), os.path.join(d, f))
     notes = open(os.path.join(d, "notes.md"), encoding="utf-8").read() if os.path.exists(os.path.join(d, "notes.md")) else ""
     meta = {
